@@ -100,6 +100,7 @@ struct IPQueue {
     virtual bool push( long v ) = 0;
     virtual bool pop( long& v ) = 0;
     virtual size_t capacity() const { return 0; }      // 0: unbounded
+    virtual void name_locks() {}                       // tie A: register the lock words under the names of the Lean machine
     virtual void thread_exit() {}                      // scheduled thread, last action: release per-thread state of the container
 };
 
@@ -175,6 +176,16 @@ struct IntrusiveMSPQueueV : IPQueue {
         return true;
     }
     size_t capacity() const override { return q->capacity(); }
+    // names of Algo/MSPQ/Model.lean: `szlock` = m_Lock, `lk<i>` = m_Heap[i].m_Lock (the only atomic objects of the class)
+    void name_locks() override
+    {
+        reg_name( &q->m_Lock.m_spin, sizeof( q->m_Lock.m_spin ), "szlock" );
+        for ( size_t i = 0; i < q->m_Heap.capacity(); ++i ) {
+            char nm[32];
+            std::snprintf( nm, sizeof nm, "lk%zu", i );
+            reg_name( &q->m_Heap[i].m_Lock.m_spin, sizeof( q->m_Heap[i].m_Lock.m_spin ), nm );
+        }
+    }
 };
 
 struct Fixture {
@@ -187,6 +198,7 @@ struct Fixture {
     bool failed = false;
     std::string failure;
     bool fc = false, pops_only = false, pushes_only = false, mixed = false;
+    bool named = false;     // hidden variant `imspq_named` (tie A with Algo/MSPQ): imspq_mixed with named lock words
     struct PushRec { long v; uint64_t inv, res; bool ok; };
     struct PopRec { long v; uint64_t inv, res; };
     std::vector<PushRec> pushes;       // threads are serialised: plain containers are fine
@@ -218,6 +230,7 @@ struct Fixture {
         else if ( v == "imspq_pushes" ) { intrusive = true; pushes_only = true; }
         else if ( v == "mspq_mixed" ) { intrusive = false; mixed = true; }
         else if ( v == "imspq_mixed" ) { intrusive = true; mixed = true; }
+        else if ( v == "imspq_named" ) { intrusive = true; mixed = true; named = true; }
         else { std::fprintf( stderr, "unknown variant %s\n", v.c_str()); std::exit( 2 ); }
 
         // constructor argument 1..16 (each value once per 24 cases, the small ones 2..8 twice so that
@@ -252,6 +265,16 @@ struct Fixture {
                 else { prefilled.push_back( val ); if ( mixed ) pushes.push_back( PushRec{ val, 0, 0, true } ); }
             }
         }
+        if ( named ) s->name_locks();
+    }
+    // tie A: the machine runs the (untraced) pre-fill itself
+    std::string header_extra() const
+    {
+        if ( !named ) return std::string();
+        std::ostringstream os;
+        os << "cap=" << cap << " pre=";
+        for ( size_t i = 0; i < prefilled.size(); ++i ) os << ( i ? "," : "" ) << prefilled[i];
+        return os.str();
     }
     std::string spec() const
     {
@@ -321,7 +344,10 @@ struct Fixture {
         size_t drained = 0;
         for ( size_t guard = 0; ; ++guard ) {
             long v = 0;
-            if ( !s->pop( v )) break;
+            // tie A: the drain is untraced; the machine runs each pop alone (`drainpop`) and must return the same item
+            if ( named ) out << "T 0 CALL drainpop\n";
+            if ( !s->pop( v )) { if ( named ) out << "T 0 RET 0\n"; break; }
+            if ( named ) out << "T 0 RET 1 " << v << '\n';
             pops.push_back( PopRec{ v, ~uint64_t( 0 ) - 1, ~uint64_t( 0 ) } );
             ++drained;
             if ( guard > 64 ) { failed = true; failure = "drain did not reach an empty queue after 64 pops"; return; }
